@@ -13,6 +13,8 @@ edge to RAISE.  Implicit exceptions outside `try` are not modelled (not needed b
 from __future__ import annotations
 
 import ast
+
+from .core import register_cache  # noqa: E402
 from collections import defaultdict
 
 
@@ -682,7 +684,7 @@ def _callee_never_returns(call):
     return _block_never_returns(fdef.body)
 
 
-_HELPER_FACTS = {}
+_HELPER_FACTS = register_cache({})
 
 
 def _normal_exit_facts(fdef, depth=0):
